@@ -31,8 +31,9 @@ const B_Z: usize = 6;
 const B_FBIG: usize = 7;
 const B_SBIG: usize = 8;
 const B_CONT2: usize = 9;
+const B_Z2: usize = 10;
 
-pub const NCALLS: usize = 10;
+pub const NCALLS: usize = 13;
 
 impl Inputs {
     pub fn build(s: &dyn Subject) -> Inputs {
@@ -56,7 +57,8 @@ impl Inputs {
         let sbig = crate::comp::zlib_deflate_raw(&big, 6, 0, 15, 8).unwrap();
         let fbig = crate::wrap::zlib_wrap([0x78, 0x9c], &sbig, &big);
         let cont2 = s.expand(&fpng).unwrap_or_default();
-        Inputs { blobs: vec![fsmall, fpng, cont, s1, plain, corr, z, fbig, sbig, cont2] }
+        let z2 = s.compress_zstd(&fpng).unwrap_or_default();
+        Inputs { blobs: vec![fsmall, fpng, cont, s1, plain, corr, z, fbig, sbig, cont2, z2] }
     }
     pub fn save(&self, path: &str) {
         let mut out = Vec::new();
@@ -82,6 +84,7 @@ impl Inputs {
 pub const CALL_NAMES: [&str; NCALLS] = [
     "expand(zlib file)", "expand(png file)", "recreate(container)", "decompress(stream, verify=true)", "decompress(stream, verify=false)",
     "recompress(plain, corrections)", "compress_zstd(zlib file)", "decompress_zstd(frame)", "expand(64 KiB zlib file)", "decompress(64 KiB stream, verify=true)",
+    "recreate(png container)", "WrapperDecompressZip(frame of the png file)", "WrapperDecompressZip(frame of the zlib file)",
 ];
 
 fn dres<T: AsRef<[u8]>>(r: Result<R<T>, PanicInfo>) -> u64 {
@@ -115,7 +118,22 @@ pub fn call(s: &dyn Subject, id: usize, inp: &Inputs) -> u64 {
         8 => dres(caught(|| s.expand(&b[B_FBIG]))),
         9 => dsplit(caught(|| s.decompress(&b[B_SBIG], true))),
         10 => dres(caught(|| recreate_yielding(s, &b[B_CONT2]))),
+        11 => dres(caught(|| c_decompress(s, &b[B_Z2], b[B_FPNG].len() + 64))),
+        12 => dres(caught(|| c_decompress(s, &b[B_Z], b[B_FSMALL].len() + 64))),
         _ => unreachable!(),
+    }
+}
+
+/// WrapperDecompressZip through the C ABI into a fresh buffer
+fn c_decompress(s: &dyn Subject, frame: &[u8], cap: usize) -> R<Vec<u8>> {
+    let mut out = vec![0u8; cap];
+    let mut rs: u64 = 0;
+    let rc = unsafe { s.c_decompress(frame.as_ptr(), frame.len() as u64, out.as_mut_ptr(), cap as u64, &mut rs) };
+    if rc == 0 && rs as usize <= cap {
+        out.truncate(rs as usize);
+        Ok(out)
+    } else {
+        Err(SErr { code: rc, msg: format!("status {} result_size {}", rc, rs) })
     }
 }
 
@@ -355,7 +373,7 @@ impl<'a> Explorer<'a> {
                 for (t, (a, b)) in x.results.iter().zip(self.expected.iter()).enumerate() {
                     for (k, (u, v)) in a.iter().zip(b.iter()).enumerate() {
                         if u != v {
-                            which.push_str(&format!(" thread {} call {} ({})", t, k, CALL_NAMES.get(self.bodies[t][k]).unwrap_or(&"recreate(png container)")));
+                            which.push_str(&format!(" thread {} call {} ({})", t, k, CALL_NAMES[self.bodies[t][k]]));
                         }
                     }
                 }
@@ -388,7 +406,7 @@ pub fn run_c14(ctx: &Ctx, st: &mut Local) {
     let s = ctx.cur;
     let inp = Inputs::build(s);
     // sequential expectation (in this process, this thread)
-    let seq: Vec<u64> = (0..=NCALLS).map(|id| call(s, id, &inp)).collect();
+    let seq: Vec<u64> = (0..NCALLS).map(|id| call(s, id, &inp)).collect();
 
     // (1) histspace: all call sequences of length <= 3
     let name = "histspace";
@@ -429,14 +447,21 @@ pub fn run_c14(ctx: &Ctx, st: &mut Local) {
                 if ctx.take("histspace", i) {
                     st.sample("histspace", || format!("#{} history {:?}", i, hist.iter().map(|&c| CALL_NAMES[c]).collect::<Vec<_>>()));
                     ctx.begin("histspace", i, 120_000);
-                    let mut bad = None;
-                    for (k, &c) in hist.iter().enumerate() {
-                        let d = call(s, c, inp);
-                        if d != fresh[c] {
-                            bad = Some((k, c));
-                            break;
-                        }
-                    }
+                    // a fresh OS thread per history, so that thread-local state starts empty and the
+                    // case does not depend on what this worker executed before
+                    let bad = std::thread::scope(|sc| {
+                        sc.spawn(|| {
+                            for (k, &c) in hist.iter().enumerate() {
+                                let d = call(s, c, inp);
+                                if d != fresh[c] {
+                                    return Some((k, c));
+                                }
+                            }
+                            None
+                        })
+                        .join()
+                        .unwrap_or(Some((0, hist[0])))
+                    });
                     ctx.end();
                     match bad {
                         Some((k, c)) => st.violation(ctx.viol("histspace", i, "history-dependent-result", None,
@@ -457,7 +482,7 @@ pub fn run_c14(ctx: &Ctx, st: &mut Local) {
         rec(ctx, st, s, &inp, &fresh, &mut hist, maxlen, &mut idx);
         let _ = std::fs::remove_file(&path);
         let e = st.eng(name);
-        e.bound = "10 (function, input) calls; each as the first call of a fresh process; all 1110 call sequences of length <= 3 in one process, every result compared with the fresh-process result".into();
+        e.bound = "13 (function, input) calls incl. the C wrappers; each as the first call of a fresh process; all 13+169+2197 call sequences of length <= 3 in one process, every result compared with the fresh-process result".into();
         e.exhaustive = true;
     }
 
@@ -517,7 +542,7 @@ pub fn run_c14(ctx: &Ctx, st: &mut Local) {
         }
         let _ = std::fs::remove_file(&path);
         let e = st.eng(name);
-        e.bound = "all 10 calls in fresh processes under MALLOC_PERTURB_ {0,0x55,0xAA} x mmap/trim threshold {default, 1 GiB} x ASLR {on, off}".into();
+        e.bound = "all 13 calls in fresh processes under MALLOC_PERTURB_ {0,0x55,0xAA} x mmap/trim threshold {default, 1 GiB} x ASLR {on, off}".into();
         e.exhaustive = true;
     }
 
@@ -532,6 +557,7 @@ pub fn run_c14(ctx: &Ctx, st: &mut Local) {
             (vec![vec![2, 10], vec![10, 2]], true),
             (vec![vec![1], vec![10], vec![5]], false),
             (vec![vec![6, 7], vec![7, 0]], false),
+            (vec![vec![11, 12], vec![12, 11]], false),
         ];
         let mut idx = 0u64;
         for (bodies, private) in configs {
@@ -580,7 +606,7 @@ pub fn run_c14(ctx: &Ctx, st: &mut Local) {
         }
         let e = st.eng(name);
         let capped = e.notes.iter().any(|n| n == "cap hit");
-        e.bound = format!("6 thread configurations (2 threads x 2 calls, 3 threads x 1 call; shared and private input buffers) x every schedule with at most {} preemptions at the library's hook points and at every call into the harness Read/Write objects", bound);
+        e.bound = format!("7 thread configurations (2 threads x 2 calls, 3 threads x 1 call; shared and private input buffers) x every schedule with at most {} preemptions at the library's hook points and at every call into the harness Read/Write objects", bound);
         e.exhaustive = !capped;
     }
 
@@ -594,7 +620,7 @@ pub fn run_c14(ctx: &Ctx, st: &mut Local) {
         let mut bad = 0;
         let own = Inputs { blobs: inp.blobs.clone() };
         for r in 0..rounds {
-            for id in 0..=NCALLS {
+            for id in 0..NCALLS {
                 if (id == 8 || id == 9) && r % 4 != 0 {
                     continue;
                 }
@@ -611,7 +637,7 @@ pub fn run_c14(ctx: &Ctx, st: &mut Local) {
         e.states += 1;
         e.transitions += 1;
         e.nontrivial += 1;
-        e.bound = format!("all {} worker threads start each of the 11 calls simultaneously (barrier), {} rounds, alternating private and identical inputs, compared with the sequential digests (free-running: a sample of interleavings, labelled as such)", ctx.nthreads, rounds);
+        e.bound = format!("all {} worker threads start each of the 13 calls simultaneously (barrier), {} rounds, alternating private and identical inputs, compared with the sequential digests (free-running: a sample of interleavings, labelled as such)", ctx.nthreads, rounds);
         e.exhaustive = true;
         if bad > 0 {
             st.violation(ctx.viol(name, ctx.thread as u64, "concurrent-result-differs", None, format!("{} concurrent calls returned a result different from the sequential one", bad), &[]));
